@@ -312,4 +312,5 @@ func TestVerifReplay_cmd_clusterTicker(t *testing.T) {
 		return
 	}
 	fmt.Println("NOT-REPRODUCED")
+	fmt.Println("BOUNDED-OK cases=1")
 }
